@@ -81,15 +81,17 @@ func (v *jv) size() int {
 }
 
 var namePool = []string{"a", "b", "c", "d", "foo", "bar", "a/b", "m~n", "~0", "~1", "0", "1", "2", "-", "01",
-	"<k&>", "k ", "é", "😀", "x y", "q\"t", "b\\s", "", "-1", "10"}
-var plainNames = []string{"a", "b", "c", "d", "e", "foo", "bar", "baz", "k1", "k2"}
+	"<k&>", "k ", "é", "😀", "x y", "q\"t", "b\\s", "", "-1", "10", "rate%d", "%v", "100% sure", "%w", "%"}
+var plainNames = []string{"a", "b", "c", "d", "e", "foo", "bar", "baz", "k1", "k2", "p%s"}
 var numPool = []string{"0", "-0", "1", "2", "3", "1.0", "1e400", "1E+2", "12345678901234567890123", "-1.5e-3", "10",
 	"100", "2.50", "0.1", "-7", "1e2", "100.0", "0.10"}
 var strPool = []string{"", "s", "t", "<>&", "a\"b", "back\\slash", "tab\t", " x", "é", "😀", "line\n", "/", "~",
 	"null", "0", "x<y", " ", "\x7f", "\x01", "long string with spaces",
 	// code points at the encoding boundaries (UTF-8 lengths, surrogate arithmetic)
 	"\u007f\u0080", "\u07ff\u0800", "\ud7ff\ue000", "\uffff", "\U00010000", "\U000103ff", "\U0001f400", "\U0010fc00", "\U0010ffff",
-	"\U00020000x", "\ufffd"}
+	"\U00020000x", "\ufffd", "100%", "%s%d%v", "%!(EXTRA)", "50%% off",
+	// neighbours of the byte patterns the HTML escaper looks for (E2 80 A8 / E2 80 A9)
+	"\u2068", "\u2069", "\u2027", "\u202a", "\u3028", "\u20a8", "\u2028\u2029", "a\u2028", "\xe2\x80", "\xe2"}
 
 type genCfg struct {
 	depth     int
@@ -118,7 +120,7 @@ func genValue(r *rng, c genCfg, depth int) *jv {
 			return jnum(r.pick(numPool))
 		default:
 			if c.plain {
-				return jstr(r.pick([]string{"s", "t", "u", "", "x<y"}))
+				return jstr(r.pick([]string{"s", "t", "u", "", "x<y", "100%", "%d"}))
 			}
 			return jstr(r.pick(strPool))
 		}
